@@ -542,6 +542,7 @@ impl Wal {
 
         let offset = file.metadata()?.len();
         file.seek(SeekFrom::End(0))?;
+        #[cfg(luqing_studio_nervusdb_verif)]
         let path = &self.path;
         let mut write_record = || -> Result<()> {
             #[cfg(luqing_studio_nervusdb_verif)]
